@@ -40,6 +40,60 @@ pub fn name_shapes() -> Vec<NameShape> {
 	]
 }
 
+/// CA certificates built by hand and signed with ring (Ed25519): subjects OpenSSL's builder API
+/// cannot express — multi-valued RDNs — next to a single-valued control
+pub fn handmade_cas() -> Vec<(String, Vec<u8>, Vec<u8>)> {
+	use crate::props::c06::tlv;
+	use ring::signature::KeyPair as _;
+	let rng = ring::rand::SystemRandom::new();
+	let Ok(doc) = ring::signature::Ed25519KeyPair::generate_pkcs8(&rng) else { return vec![] };
+	let kp = ring::signature::Ed25519KeyPair::from_pkcs8(doc.as_ref()).unwrap();
+	let pk = kp.public_key().as_ref().to_vec();
+	let oid = |b: &[u8]| tlv(0x06, b);
+	let atv = |o: &[u8], v: &str| tlv(0x30, &[oid(o), tlv(0x0c, v.as_bytes())].concat());
+	let rdn = |atvs: Vec<Vec<u8>>| {
+		let mut a = atvs;
+		a.sort();
+		tlv(0x31, &a.concat())
+	};
+	let (c, o, ou, cn) = ([0x55u8, 0x04, 0x06], [0x55u8, 0x04, 0x0a], [0x55u8, 0x04, 0x0b], [0x55u8, 0x04, 0x03]);
+	let names: Vec<(&str, Vec<u8>)> = vec![
+		("single-valued", tlv(0x30, &[rdn(vec![atv(&o, "Example Org")]), rdn(vec![atv(&cn, "Issuing CA")])].concat())),
+		("rdn-of-2-last", tlv(0x30, &[rdn(vec![atv(&o, "Example Org")]), rdn(vec![atv(&ou, "PKI"), atv(&cn, "Issuing CA")])].concat())),
+		("rdn-of-2-first", tlv(0x30, &[rdn(vec![atv(&c, "DE"), atv(&o, "Org")]), rdn(vec![atv(&cn, "Issuing CA")])].concat())),
+		("rdn-of-3-only", tlv(0x30, &rdn(vec![atv(&o, "Org"), atv(&ou, "PKI"), atv(&cn, "Issuing CA")]))),
+	];
+	let ed = tlv(0x30, &oid(&[0x2b, 0x65, 0x70]));
+	let spki = {
+		let mut bits = vec![0u8];
+		bits.extend_from_slice(&pk);
+		tlv(0x30, &[ed.clone(), tlv(0x03, &bits)].concat())
+	};
+	let ext = |o: &[u8], critical: bool, value: Vec<u8>| {
+		let mut body = oid(o);
+		if critical {
+			body.extend([0x01, 0x01, 0xff]);
+		}
+		body.extend(tlv(0x04, &value));
+		tlv(0x30, &body)
+	};
+	let exts = tlv(0xa3, &tlv(0x30, &[
+		ext(&[0x55, 0x1d, 0x13], true, tlv(0x30, &[0x01, 0x01, 0xff])),
+		ext(&[0x55, 0x1d, 0x0e], false, tlv(0x04, &[0x5a; 20])),
+		ext(&[0x55, 0x1d, 0x0f], true, vec![0x03, 0x02, 0x01, 0x06]),
+	].concat()));
+	let validity = tlv(0x30, &[tlv(0x17, b"200101000000Z"), tlv(0x17, b"400101000000Z")].concat());
+	let mut out = Vec::new();
+	for (n, name) in names {
+		let tbs = tlv(0x30, &[vec![0xa0, 0x03, 0x02, 0x01, 0x02], vec![0x02, 0x01, 0x2a], ed.clone(), name.clone(), validity.clone(), name.clone(), spki.clone(), exts.clone()].concat());
+		let sig = kp.sign(&tbs);
+		let mut sb = vec![0u8];
+		sb.extend_from_slice(sig.as_ref());
+		out.push((n.to_string(), tlv(0x30, &[tbs, ed.clone(), tlv(0x03, &sb)].concat()), doc.as_ref().to_vec()));
+	}
+	out
+}
+
 pub struct OsslCa {
 	pub der: Vec<u8>,
 	pub key_pkcs8: Vec<u8>,
@@ -441,6 +495,17 @@ pub fn run(ctx: &mut Ctx, prop: &str) -> Report {
 			}
 		}
 	}
+	// --- hand-built CAs: multi-valued RDNs
+	for (shape, der, pkcs8) in handmade_cas() {
+		s.rep.count("handmade_ca");
+		let imported = import_case(&mut s, "handmade", &der, None);
+		if let (Some(ip), true) = (imported, prop == "C03") {
+			if let Ok(kp) = KeyPair::try_from(pkcs8.as_slice()) {
+				chain_case(&mut s, &format!("handmade-ca-imported shape={}", shape), &der, ip, &kp, Kid::Sha256, "imported-handmade");
+			}
+		}
+	}
+	s.rep.exhaustive.push("hand-built CA certificates: single-valued control and three multi-valued-RDN subjects (imported, then issued from and validated when the import succeeds)".into());
 	s.rep.exhaustive.push("OpenSSL CA name-shape sweep: 13 shapes (incl. a type repeated with an identical value) x 3 key types x SKI present/absent".into());
 	let req = s.drv.requests;
 	s.rep.add("driver_requests", req);
